@@ -115,7 +115,8 @@ func (p *MultilineAction) Do(event *pipeline.Event) pipeline.ActionResult {
 	predictedLen := p.eventSize + predictionLookahead
 	shouldSplit := predictedLen > p.config.SplitEventSize
 	logFragmentLen := len(logFragment)
-	isEnd := logFragment[logFragmentLen-3:logFragmentLen-1] == newLine
+	// the shortest fragment ending with an escaped new line is `"\n"`: an empty log (`""`) is not an end
+	isEnd := logFragmentLen >= 4 && logFragment[logFragmentLen-3:logFragmentLen-1] == newLine
 	if !isEnd && !shouldSplit {
 		sizeAfterAppend := len(p.eventBuf) + len(logFragment)
 		// check buffer size before append
